@@ -33,7 +33,7 @@ MUTATING = {"update", "append", "add", "extend", "setdefault", "pop", "clear", "
 def run(ctx):
     repo = ctx.repo
     res = Result(PROP)
-    res.rules = ["E-TYPE", "E-REJECT", "E-DIR", "E-FOOT", "E-FIRST", "E-ALIAS", "E-LOOPALIAS", "Q-ORDER", "Q-FLAG", "Q-COPY"]
+    res.rules = ["E-TYPE", "E-REJECT", "E-DIR", "E-FOOT", "E-FIRST", "E-ALIAS", "E-LOOPALIAS", "E-SKIP", "E-IDKEEP", "Q-ORDER", "Q-FLAG", "Q-COPY"]
     res.explanation = (
         "Narrow claim. Raise sites of the three class bodies are classified by their guard and the raised class is "
         "resolved; removals keyed by parameters are checked for a dominating membership test or a converting handler; "
@@ -71,6 +71,18 @@ def run(ctx):
         check_foot(repo, eng, res)
         check_clear_update(repo, eng, res)
         check_merge_first(repo, res)
+        from .common import pattern_lint
+
+        from .common import optional_id_truthiness
+
+        pattern_lint(res, PROP, "E-IDKEEP", [m for cn in CORE_CLASSES for m in repo.get_class(cn).methods.values()], optional_id_truthiness,
+                     "def add_edge(self, members, idx=None):\n    uid = next(self._edge_uid) if not idx else idx\n    self._edge[uid] = set(members)\n",
+                     lambda nd: f"`{unparse(nd, 50)}` decides by truthiness whether the caller gave an ID; the admissible IDs 0, 0.0 and '' are then replaced by an automatic ID (the element is stored under another label than the one asked for, and a record addressed to that label misses it)",
+                     "optional ID parameters tested for truthiness instead of `is None`")
+        pattern_lint(res, PROP, "E-SKIP", [m for cn in CORE_CLASSES for m in repo.get_class(cn).methods.values()], swallowed_lookup_around_loop,
+                     "def set_edge_attributes(self, values, name):\n    try:\n        for e, v in values.items():\n            self._edge_attr[e][name] = v\n    except IDNotFound:\n        warn('unknown edge')\n",
+                     lambda nd: f"`except {unparse(nd.type, 30) if nd.type is not None else ''}` swallows the failed lookup of ONE element but encloses the whole loop over the caller's elements: the first unknown ID ends the bulk operation and every later element is silently not applied (the documented effect is that unknown IDs are skipped and the rest is set)",
+                     "handlers that skip an unknown ID placed around the bulk loop instead of inside it")
         # cleanup(in_place=True) is an edit of the receiver with a documented effect per flag (no isolated nodes, no
         # singleton edges, ...): the order and guards of its steps (rules of C19, whose text names cleanup) are
         # checked here as well
@@ -605,3 +617,31 @@ def _mutation_only_after_fresh(loop, name, mut_stmt):
                         return r if r is not None else fresh
         return None
     return bool(rec(loop.body))
+
+
+def swallowed_lookup_around_loop(fn_node):
+    """`try: for x in <caller data>: <table>[x]... except IDNotFound: warn(...)` - a handler that does not re-raise, for the
+    lookup error of a single element, attached to a try that contains the loop over the elements."""
+    for t in ast.walk(fn_node):
+        if not isinstance(t, ast.Try):
+            continue
+        loops = [l for b in t.body for l in ast.walk(b) if isinstance(l, (ast.For, ast.AsyncFor))]
+        # only loops that are not themselves inside a nested try with such a handler
+        keyed = []
+        for l in loops:
+            names = {n.id for n in ast.walk(l.target) if isinstance(n, ast.Name)}
+            uses = [x for b in l.body for x in ast.walk(b) if isinstance(x, ast.Subscript) and isinstance(x.slice, ast.Name) and x.slice.id in names and isinstance(x.value, ast.Attribute) and x.value.attr in ("_node", "_edge", "_node_attr", "_edge_attr")]
+            if uses:
+                keyed.append(l)
+        if not keyed:
+            continue
+        for h in t.handlers:
+            caught = unparse(h.type, 80) if h.type is not None else ""
+            if not any(w in caught for w in ("IDNotFound", "KeyError")) and h.type is not None:
+                continue
+            if any(isinstance(x, ast.Raise) for b in h.body for x in ast.walk(b)):
+                continue
+            # is the lookup already protected per element inside the loop?
+            protected = all(any(isinstance(it, ast.Try) and any((hh.type is None or any(w in unparse(hh.type, 80) for w in ("IDNotFound", "KeyError"))) for hh in it.handlers) and any(x is u for b in it.body for x in ast.walk(b)) for it in ast.walk(l)) for l in keyed for u in [x for b in l.body for x in ast.walk(b) if isinstance(x, ast.Subscript) and isinstance(x.value, ast.Attribute) and x.value.attr in ("_node", "_edge", "_node_attr", "_edge_attr")])
+            if not protected:
+                yield h
